@@ -159,6 +159,13 @@ def run(res, tier, seed):
     scs, metas = matrix(tier, rnd)
     results, dt = P.run_scenarios("C04", scs)
     judge(res, metas, results, proofs_ok, broken, cex)
+    # the other direction of the correspondence: what the real programs did, the model can do
+    stuck = L.trace_inclusion(res, "C04", list(zip(scs, metas, results)), 24 if tier == "quick" else 250)
+    if stuck and not res.violations:
+        sc, m, r, k = stuck[0]
+        res.violation("C04:obligation:trace", "the callback sequence of a real run (%s at %s) is not a path of the control skeleton: the model cannot follow observation %d (%s)" %
+                      ("+".join(m["causes"]), m["point"], k, (L.observations(sc, r)[1] + ["?"])[k]),
+                      {"scenario": sc, "observations": L.observations(sc, r)[1]}, found_input=False)
     return res.finish(rule="cause (quit msg, Quit(), interrupt, Kill, ctx cancel, read error, panic in callback, panic in command, SIGINT, SIGTERM) x point (idle, inside Update/View/filter/Init, batch dispatch, command hand-off) x pending work (blocked senders, never-returning command, unread input); message-borne causes followed by Kill/cancel; EOF alone; distinct = distinct (cause, point, pending)",
                       trusted_extra=TRUSTED)
 
